@@ -343,3 +343,11 @@ Example C05_ex_source_score :
   = Some (map (fun ks => (fst ks, option_map this (snd ks)))
               (scorer ex_orc 2 [(7%Z, ex_B); (3%Z, ex_A); (5%Z, ex_B)] ex_D [ex_ts; rev ex_ts])).
 Proof. vm_compute. reflexivity. Qed.
+
+(* ---- the constructor of GaussianDBALScorer (Generated/SrcInits.v): __init__ stores max_chunk and max_triples (defaults 50 / 5000,
+   checked against the signature), the attributes the translated score reads / hands to the kernel as max_combos ---- *)
+From Batchie Require Generated.SrcInits Proofs.C05Source_Init_DBALScorer.
+Theorem C05_model_is_source_init : forall max_chunk max_triples : Z, SrcInits.src_dbal_scorer_init max_chunk max_triples = Ok (max_chunk, max_triples).
+Proof. exact C05Source_Init_DBALScorer.src_dbal_scorer_init_stores. Qed.
+Print Assumptions C05_model_is_source_init.
+
